@@ -5,8 +5,24 @@
 #include "jobspec.h"
 #include "lib.h"
 
+// message segments as separate caller objects (C07/C10: a segment's neighbours in memory are guard pages or
+// canaries, not the adjacent segment)
+struct SegBufs {
+        std::vector<arena::Obj> in, out; // out[i] is invalid when the segment is processed in place
+        std::vector<uint32_t> cuts;      // 0 = cuts[0] <= ... <= cuts[n] = total
+        bool inplace = false;
+        bool active() const { return !in.empty(); }
+        uint8_t *src(size_t i, uint8_t *fallback) const { return in[i].valid() ? in[i].p : fallback; }
+        uint8_t *dst(size_t i, uint8_t *fallback) const { return inplace ? src(i, fallback) : out[i].valid() ? out[i].p : fallback; }
+};
+void segs_alloc(SegBufs &sb, const uint8_t *src, const std::vector<uint32_t> &cuts, uint64_t seed, bool inplace);
+void segs_gather(const SegBufs &sb, uint8_t *out);
+std::string segs_check(const SegBufs &sb, const uint8_t *src_pre);
+void segs_release(SegBufs &sb);
+
 struct MatJob {
         JobSpec spec;
+        SegBufs segs;           // SGL with spec.scatter: one object per segment
         arena::Obj obj[O_NOBJ];
         arena::Obj extra[3];    // DES3 key pointer array, SGL segment array, spare
         std::vector<uint8_t> pre[O_NOBJ]; // pre-images
